@@ -381,12 +381,21 @@ def _fit(S, A, lam):
     n = S.shape[0]
     I = np.eye(n)
     G = lam * I + A
-    c = float(np.linalg.cond(G))
+    c = _cond_spd(G)
     r = _resid(S, G)
+    if lam == 1.0 or r <= _tol(c):
+        # the second reference (matrix started at lambda*I) is only needed to classify a disagreement
+        return r / _tol(c), r / _tol(c), {"resid": r, "tol": _tol(c), "cond": c, "resid_alt": r, "tol_alt": _tol(c), "cond_alt": c}
     Ga = I / lam + A
-    ca = float(np.linalg.cond(Ga))
+    ca = _cond_spd(Ga)
     ra = _resid(S, Ga)
     return r / _tol(c), ra / _tol(ca), {"resid": r, "tol": _tol(c), "cond": c, "resid_alt": ra, "tol_alt": _tol(ca), "cond_alt": ca}
+
+
+def _cond_spd(G):
+    """2-norm condition number of the (exactly symmetric, positive definite) reference matrix."""
+    ev = np.linalg.eigvalsh(G)
+    return float(ev[-1] / ev[0]) if ev[0] > 0 else float("inf")
 
 
 def _check_state(agent, rec, site, g_all=None, S_before=None):
